@@ -11,22 +11,19 @@ COMMON_ASSUMPTIONS = [
     "allocation sizes are concrete per harness (number of Bvd storage words); lengths and contents are symbolic",
 ]
 
-STUBBING = set()  # properties whose harnesses need `-Z stubbing`
 
 
 def needs_stubbing(features):
     return any(f.upper() in STUBBING for f in features)
 
 
-META = {
-    "C04": {
-        "bounds": "lhs: Bvf<u8,2|3>, Bvf<u16,2>, Bvf<u64,2>, (thorough: Bvf<u32,2>, Bvf<usize,2>, Bvf<u128,2>, Bvf<u64,3>), "
-                  "Bvd with 2 (thorough: 1,3) allocated words incl. spare words, Bv in inline and heap mode; rhs: the same "
-                  "families incl. longer rhs, other word types, all six native unsigned types; every length 0..=capacity "
-                  "(Bvd: 0..=64*words) and every value, symbolic; unwind 4..9 with unwinding assertions. `!&Bvd` allocates "
-                  "by length: lengths {0,1,63,64,65,128,130,192} concrete in quick, symbolic 0..=128 in thorough.",
-        "outside": "vectors longer than 256 bits, Bvf instantiations not listed, Bvd with more than 3 allocated words",
-        "assumptions": [],
-        "stubs": [],
-    },
-}
+import json as _json
+import os as _os
+
+META = {}
+_d = _os.path.join(_os.path.dirname(_os.path.abspath(__file__)), "meta")
+if _os.path.isdir(_d):
+    for _f in sorted(_os.listdir(_d)):
+        if _f.endswith(".json"):
+            META[_f[:-5]] = _json.load(open(_os.path.join(_d, _f)))
+STUBBING = {k for k, v in META.items() if v.get("needs_stubbing")}
